@@ -16,6 +16,8 @@ import (
 //
 //	new | g <acts> | p <acts> | r <acts> | m <acts>   -> ok
 //	serve <variant>                                  -> ok|ab <trace> st=<status> ;; idx=<cursor>
+//	servef <variant> <k>                             -> the same; the client's connection breaks: every Write that
+//	                                                    reaches the underlying writer fails from the k-th on (k = 0: all)
 //	lim <g1> <g2> <pre> <u> <variant>                -> accept <n> | reject <step>
 //
 // One line per handler, so that the shrinker (which drops lines) removes handlers one by one.
@@ -55,7 +57,7 @@ func parseChainActs(s string) ([]chainAct, bool) {
 		}
 		k := tok[0]
 		switch k {
-		case 'n', 'a', 't':
+		case 'n', 'a', 't', 'R':
 			if len(tok) != 1 {
 				return nil, false
 			}
@@ -113,6 +115,8 @@ func mkHandler(cr *chainRun, pos int, acts []chainAct) rux.HandlerFunc {
 				cr.add("M%d.%d", pos, a.arg)
 			case 'n':
 				c.Next()
+			case 'R':
+				cxRecoveringNext(cr, pos, c)
 			case 'a':
 				cr.add("A%d", pos)
 				c.Abort()
@@ -252,7 +256,42 @@ func (s *chainState) build(variant int) {
 	s.router, s.variant, s.path, s.run = router, variant, path, cr
 }
 
+// cxRecoveringNext is the action `R`: c.Next() inside a recovery middleware (defer/recover around the rest of
+// the chain, the shape of handlers.PanicsHandler). Nothing in these chains panics on the current code, so for the
+// model it is `n`; a recovered panic is recorded in the trace (the model never shows one).
+func cxRecoveringNext(cr *chainRun, pos int, c *rux.Context) {
+	defer func() {
+		if v := recover(); v != nil {
+			cr.add("R%d.%s", pos, panicClass(v))
+		}
+	}()
+	c.Next()
+}
+
+// cxBrokenConn is a client connection that breaks: WriteHeader still goes through, every Write from the k-th on
+// fails with an error and accepts nothing.
+type cxBrokenConn struct {
+	rec    *httptest.ResponseRecorder
+	k      int
+	writes int
+}
+
+func (w *cxBrokenConn) Header() http.Header { return w.rec.Header() }
+func (w *cxBrokenConn) WriteHeader(c int)   { w.rec.WriteHeader(c) }
+func (w *cxBrokenConn) Write(b []byte) (int, error) {
+	w.writes++
+	if w.writes > w.k {
+		return 0, fmt.Errorf("write tcp: broken pipe")
+	}
+	return w.rec.Write(b)
+}
+
 func (s *chainState) serve(variant int) (ans string, oracle []string) {
+	return s.cxServe(variant, -1)
+}
+
+// cxServe: failFrom < 0 = a healthy connection, else the connection breaks at that write.
+func (s *chainState) cxServe(variant int, failFrom int) (ans string, oracle []string) {
 	if !s.hasMain {
 		return "no-main", nil
 	}
@@ -263,7 +302,11 @@ func (s *chainState) serve(variant int) (ans string, oracle []string) {
 	s.run.ctx = nil
 	rec := httptest.NewRecorder()
 	req := httptest.NewRequest("GET", s.path, nil)
-	s.router.ServeHTTP(rec, req)
+	if failFrom >= 0 {
+		s.router.ServeHTTP(&cxBrokenConn{rec: rec, k: failFrom}, req)
+	} else {
+		s.router.ServeHTTP(rec, req)
+	}
 
 	tr := s.run.trace
 	kind := "ok"
@@ -449,6 +492,15 @@ func (chainEngine) Run(ops []string) (ans []string, oracle []string) {
 				res, orc := st.serve(v)
 				oracle = append(oracle, orc...)
 				return res
+			case f[0] == "servef" && len(f) == 3:
+				v, err := strconv.Atoi(f[1])
+				k, err2 := strconv.Atoi(f[2])
+				if err != nil || v < 0 || err2 != nil || k < 0 || len(f[2]) > 6 {
+					return "bad-op"
+				}
+				res, orc := st.cxServe(v, k)
+				oracle = append(oracle, orc...)
+				return res
 			case f[0] == "lim" && len(f) == 6:
 				var n [5]int
 				for i := 0; i < 5; i++ {
@@ -542,6 +594,14 @@ func (chainEngine) Corpus() []Case {
 		{Ops: []string{"lim 0 0 62 0 0", "lim 0 0 63 0 0", "lim 0 0 0 62 0", "lim 0 0 0 63 0", "lim 0 0 31 31 0", "lim 0 0 31 32 0"}},
 		{Ops: []string{"lim 62 0 0 0 0", "lim 63 0 0 0 0", "lim 31 31 0 0 0", "lim 31 32 0 0 1", "lim 30 1 31 0 0", "lim 30 1 32 0 1", "lim 1 0 61 0 0", "lim 1 0 62 0 0"}},
 		{Ops: []string{"lim 20 20 20 2 0", "lim 20 20 20 3 1", "lim 0 0 0 0 0", "lim 0 0 64 0 0", "lim 0 0 200 0 0", "lim 100 0 0 0 0", "lim 0 62 0 0 1", "lim 0 63 0 0 1"}},
+		// the client's connection is broken (every write fails) and a recovery middleware sits in front: an auth
+		// middleware that rejects with AbortWithStatus(code, msg) still aborts; the handlers behind it do not start
+		{Ops: []string{"new", "g R,i1", "p e1,n", "r x401,i2", "m w1,e9", "servef 0 0", "servef 6 0", "serve 0"}},
+		// the connection breaks after the first write; abort with message in the main handler, after Next() of a
+		// middleware, behind a buffering wrapper; no recovery middleware at all
+		{Ops: []string{"new", "g w1,R,i1", "r n,x403,i1", "r i0,w2", "m x500,i3", "servef 0 1", "servef 9 2", "servef 0 0"}},
+		{Ops: []string{"new", "g b7,R", "r e1,n,i1", "m x404,n", "servef 0 0", "servef 0 1"}},
+		{Ops: []string{"new", "g e1,n", "r x401", "m e2", "servef 0 0", "servef 3 5"}},
 	}
 	for i := range cs {
 		cs[i].Tag = "corpus"
@@ -684,6 +744,39 @@ func genLimCase(r *Rand) Case {
 	return Case{Ops: ops, Tag: "lim"}
 }
 
+// cxFaultStream (drawn after everything else of the case; one case in four): the requests are served over a
+// connection that breaks at write 0..2 (`servef`), and in two of three such cases one or two handlers that call
+// Next() do it as a recovery middleware (`R`).
+func cxFaultStream(r *Rand, ops []string) bool {
+	if !r.Chance(1, 4) {
+		return false
+	}
+	for i, op := range ops {
+		if strings.HasPrefix(op, "serve ") {
+			ops[i] = fmt.Sprintf("servef %s %d", strings.TrimPrefix(op, "serve "), r.PickInt([]int{0, 0, 0, 1, 2}))
+		}
+	}
+	if r.Chance(2, 3) {
+		var withNext []int
+		for i, op := range ops {
+			f := strings.Fields(op)
+			if len(f) == 2 && (f[0] == "g" || f[0] == "p" || f[0] == "r") && strings.Contains(","+f[1]+",", ",n,") {
+				withNext = append(withNext, i)
+			}
+		}
+		for k, n := 0, r.Range(1, 2); k < n && len(withNext) > 0; k++ {
+			// biased towards the front of the chain: a recovery middleware is registered first
+			i := withNext[r.Intn(len(withNext))]
+			if r.Bool() {
+				i = withNext[0]
+			}
+			f := strings.Fields(ops[i])
+			ops[i] = f[0] + " " + strings.TrimSuffix(strings.TrimPrefix(strings.Replace(","+f[1]+",", ",n,", ",R,", 1), ","), ",")
+		}
+	}
+	return true
+}
+
 func (chainEngine) Gen(r *Rand, tier string) Case {
 	if r.Chance(1, 8) {
 		return genLimCase(r)
@@ -777,6 +870,9 @@ func (chainEngine) Gen(r *Rand, tier string) Case {
 		} else {
 			ops = append(ops, fmt.Sprintf("serve %d", r.Intn(32)))
 		}
+	}
+	if cxFaultStream(r, ops) {
+		plan += "-brokenconn"
 	}
 	return Case{Ops: ops, Tag: tag + "-" + plan}
 }
